@@ -25,7 +25,9 @@ Definition REh (s : Client.state) (c : nat) (k : call) : Prop :=
   k_unary k = false ->
   (running_loop (s_loop k) = true -> pb (ctakes c (Client.log s)) = msgs c (Client.log s) ++ handpart k) /\
   (eof_taken c (Client.log s) -> running_loop (s_loop k) = false /\ pb (ctakes c (Client.log s)) = msgs c (Client.log s)) /\
-  is_prefix (msgs c (Client.log s)) (pb (ctakes c (Client.log s))).
+  is_prefix (msgs c (Client.log s)) (pb (ctakes c (Client.log s))) /\
+  (forall e, In e (ctakes c (Client.log s)) -> final_of e <> None ->
+             running_loop (s_loop k) = false /\ exists P, ctakes c (Client.log s) = P ++ [e]).
 Definition RE (s : Client.state) : Prop := forall c k, nth_error (calls s) c = Some k -> REh s c k.
 
 Lemma RE_upd s s' c0 k0 k' evs :
@@ -36,9 +38,11 @@ Proof.
   intros HR Hc Hn Hl Hq Hk c k P Hu. unfold RE, REh, eof_taken in *. rewrite Hl, msgs_app, ctakes_app, (proj1 (Hq c)), (proj2 (Hq c)), !app_nil_r.
   rewrite Hc in P. destruct (Nat.eq_dec c c0) as [->|Hne].
   - rewrite nth_upd_eq in P by (eapply nth_some_lt; eauto). inversion P; subst k.
-    destruct (Hk Hu) as (A & B). destruct (HR _ _ Hn A) as (R1 & R2 & R3). destruct B as [B|B].
+    destruct (Hk Hu) as (A & B). destruct (HR _ _ Hn A) as (R1 & R2 & R3 & R4). destruct B as [B|B].
     + unfold handpart in *. rewrite B. split; auto.
-    + split; [intros X; congruence|]. split; [|exact R3]. intros X. destruct (R2 X) as (_ & Y). auto.
+    + split; [intros X; congruence|]. split; [|split; [exact R3|]].
+      * intros X. destruct (R2 X) as (_ & Y). auto.
+      * intros e0 Hin0 Hf0. destruct (R4 e0 Hin0 Hf0) as (_ & Y). auto.
   - rewrite nth_upd_neq in P by auto. apply (HR _ _ P Hu).
 Qed.
 
@@ -94,16 +98,19 @@ Proof.
   intros HR Hc Hn Hl Hl0 Hu0 Hk c k P Hu. unfold RE, REh, eof_taken in *. rewrite Hl, msgs_app, ctakes_app. simpl. rewrite app_nil_r.
   rewrite Hc in P. destruct (Nat.eq_dec c c0) as [->|Hne].
   - rewrite nth_upd_eq in P by (eapply nth_some_lt; eauto). inversion P; subst k. rewrite Nat.eqb_refl.
-    rewrite Hu0 in Hu. destruct (HR _ _ Hn Hu) as (R1 & R2 & R3). rewrite Hl0 in R1, R2. unfold handpart in R1. rewrite Hl0 in R1. simpl in R1.
+    rewrite Hu0 in Hu. destruct (HR _ _ Hn Hu) as (R1 & R2 & R3 & R4). rewrite Hl0 in R1, R2, R4. unfold handpart in R1. rewrite Hl0 in R1. simpl in R1.
     rewrite app_nil_r in R1. specialize (R1 eq_refl).
     assert (R3' : is_prefix (msgs c0 (Client.log s)) (pb (ctakes c0 (Client.log s)) ++ tb e)) by (rewrite R1; eexists; reflexivity).
     assert (NE : ~ exists e0, In e0 (ctakes c0 (Client.log s)) /\ final_of e0 = Some EEof).
     { intros X. destruct (R2 X) as (Y & _). discriminate Y. }
     rewrite pb_app. simpl. rewrite app_nil_r.
     destruct Hk as [(F & Rn & Hh) | Rn].
-    + split; [intros _; rewrite Hh, R1; reflexivity|]. split; [|exact R3'].
+    + split; [intros _; rewrite Hh, R1; reflexivity|]. split; [|split; [exact R3'|]].
+      2: { intros e1 Hin1 Hf1. apply in_app_or in Hin1. destruct Hin1 as [Hin1 | [<- | []]]; [destruct (R4 _ Hin1 Hf1) as (Y & _); discriminate Y | congruence]. }
       intros (e0 & Hin & He). exfalso. apply in_app_or in Hin. destruct Hin as [Hin | [<- | []]]; [apply NE; eauto | congruence].
-    + split; [intros X; congruence|]. split; [|exact R3'].
+    + split; [intros X; congruence|]. split; [|split; [exact R3'|]].
+      2: { intros e1 Hin1 Hf1. apply in_app_or in Hin1. destruct Hin1 as [Hin1 | [<- | []]]; [destruct (R4 _ Hin1 Hf1) as (Y & _); discriminate Y|].
+           split; [exact Rn | eexists; reflexivity]. }
       intros (e0 & Hin & He). split; [exact Rn|]. apply in_app_or in Hin. destruct Hin as [Hin | [<- | []]]; [exfalso; apply NE; eauto|].
       unfold tb. rewrite He. rewrite app_nil_r. exact R1.
   - rewrite nth_upd_neq in P by auto. destruct (Nat.eqb_spec c0 c) as [->|_]; [contradiction|]. rewrite app_nil_r. apply (HR _ _ P Hu).
@@ -117,13 +124,14 @@ Proof.
   intros HR Hc Hn Hl Hl0 Hl1 Hu0 c k P Hu. unfold RE, REh, eof_taken in *. rewrite Hl, msgs_app, ctakes_app.
   rewrite Hc in P. destruct (Nat.eq_dec c c0) as [->|Hne].
   - rewrite nth_upd_eq in P by (eapply nth_some_lt; eauto). inversion P; subst k.
-    rewrite Hu0 in Hu. destruct (HR _ _ Hn Hu) as (R1 & R2 & R3). unfold handpart in *. rewrite Hl0 in R1, R2. rewrite Hl1. specialize (R1 eq_refl).
+    rewrite Hu0 in Hu. destruct (HR _ _ Hn Hu) as (R1 & R2 & R3 & R4). unfold handpart in *. rewrite Hl0 in R1, R2, R4. rewrite Hl1. specialize (R1 eq_refl).
     assert (Z1 : ctakes c0 [EvRecvRet c0 (if b <? 0 then RErr EUnmarshal else RMsg b)] = []) by (destruct (b <? 0); reflexivity).
     rewrite Z1, !app_nil_r.
     assert (Q : pb (ctakes c0 (Client.log s)) = msgs c0 (Client.log s) ++ msgs c0 [EvRecvRet c0 (if b <? 0 then RErr EUnmarshal else RMsg b)]).
     { rewrite R1. destruct (b <? 0); simpl; [reflexivity | rewrite Nat.eqb_refl; reflexivity]. }
-    split; [intros _; exact Q|]. split; [|rewrite Q; exists []; rewrite app_nil_r; reflexivity].
-    intros X. destruct (R2 X) as (Y & _). discriminate Y.
+    split; [intros _; exact Q|]. split; [|split; [rewrite Q; exists []; rewrite app_nil_r; reflexivity|]].
+    * intros X. destruct (R2 X) as (Y & _). discriminate Y.
+    * intros e1 Hin1 Hf1. destruct (R4 _ Hin1 Hf1) as (Y & _). discriminate Y.
   - rewrite nth_upd_neq in P by auto.
     assert (Z1 : ctakes c [EvRecvRet c0 (if b <? 0 then RErr EUnmarshal else RMsg b)] = []) by (destruct (b <? 0); reflexivity).
     assert (Z2 : msgs c [EvRecvRet c0 (if b <? 0 then RErr EUnmarshal else RMsg b)] = []).
@@ -157,7 +165,7 @@ Proof.
       intros c' k P Hu. unfold eof_taken. csimpl. rewrite msgs_app, ctakes_app. simpl. rewrite !app_nil_r.
       destruct (Nat.eq_dec c' c) as [->|Hne].
       * rewrite nth_upd_eq in P by (eapply nth_some_lt; eauto). inversion P; subst k. csimpl. rewrite Z2, Z4.
-        split; [intros _; reflexivity | split; [intros (e0 & [] & _) | exists []; reflexivity]].
+        split; [intros _; reflexivity | split; [intros (e0 & [] & _) | split; [exists []; reflexivity | intros e0 []]]].
       * rewrite nth_upd_neq in P by auto. apply (HR _ _ P Hu).
     + (* r_wait: a unary call *)
       pose proof (ki_kind _ (cinv_call _ _ _ HI E)) as K. rewrite E0 in K.
@@ -193,7 +201,7 @@ Proof.
   { apply ctakes_none. intros e0 Hin0. destruct (li_ev _ HL _ Hin0) as ((k1 & Hk1 & _) & _). apply nth_some_lt in Hk1. lia. }
   assert (Z1 : msgs (length (calls s)) (Client.log s) = []).
   { apply msgs_none. intros b Hin. destruct (li_ev _ HL _ Hin) as (e & He & _). apply in_ctakes in He. rewrite Z0 in He. destruct He. }
-  unfold eof_taken. rewrite Z0, Z1. split; [rewrite Hd; discriminate|]. split; [intros (e & [] & _) | exists []; reflexivity].
+  unfold eof_taken. rewrite Z0, Z1. split; [rewrite Hd; discriminate|]. split; [intros (e & [] & _) | split; [exists []; reflexivity | intros e []]].
 Qed.
 
 Lemma RE_ext s a : linv s -> RE s -> RE (Client.ext s a).
@@ -252,6 +260,6 @@ Theorem C02_caller_prefix pol ls s c k :
   Sys.lrun pol Sys.init ls = Some s -> nth_error (calls (cl s)) c = Some k -> k_unary k = false -> k_pc k = POpen ->
   is_prefix (msgs c (Client.log (cl s))) (pb (by_id (k_id k) (map f_env (swrites (Server.log (sv s)))))).
 Proof.
-  intros H Hn Hu Hp. destruct (RE_sys _ _ _ H _ _ Hn Hu) as (_ & _ & R3).
+  intros H Hn Hu Hp. destruct (RE_sys _ _ _ H _ _ Hn Hu) as (_ & _ & R3 & _).
   eapply prefix_trans; [exact R3|]. apply pb_prefix. eapply cl_takes_prefix; eauto.
 Qed.
